@@ -320,13 +320,13 @@ def rpc_jobs(ctx):
                       "INVARIANTS " + RPC_SAFETY + " InitOut ExtractOut", "CHECK_DEADLOCK FALSE"], workers=1, timeout=T))
     # ---- seeded simulations of larger instances
     nsim = 80 if quick else 1200
-    sims = [rpc_consts(Keys=tla_set(list("abcde")), CacheSize=3, Burst=3, Rate=2, MaxConns=4, Reqs=tla_set(range(1, 7)))]
+    sims = [rpc_consts(Keys=tla_set(list("abcd")), CacheSize=3, Burst=3, Rate=2, MaxConns=3, Reqs=tla_set(range(1, 6)))]
     if not quick:
         sims.append(rpc_consts(Keys=tla_set(list("abcdef")), CacheSize=4, Burst=2, Rate=1, MaxConns=2, Reqs=tla_set(range(1, 5))))
     for i, consts in enumerate(sims):
         J.append(Job("sim", SPEC_RPC, "rpc_sim%d" % i, consts,
                      ["INIT MCInit", "NEXT MCSimNext", "INVARIANTS TypeOK", "CHECK_DEADLOCK FALSE"], kind="sim",
-                     workers=1, num=nsim // len(sims), depth=60, seed=ctx.seed + i, timeout=T, count=False))
+                     workers=1, num=nsim // len(sims), depth=50, seed=ctx.seed + i, timeout=T, count=False))
     return J
 
 
@@ -442,7 +442,7 @@ def sh_jobs(ctx):
                            ProtoLim1=3, ProtoLim2=5, ProtoPeerLim1=2, ProtoPeerLim2=3, SvcLim=5, SvcPeerLim=3, SvcMem=9, SvcPeerMem=6,
                            Burst=3, Rate=2),
                  ["INIT MCInit", "NEXT MCSimNext", "INVARIANTS TypeOK", "CHECK_DEADLOCK FALSE"], kind="sim", workers=1,
-                 num=60 if quick else 1000, depth=60, seed=ctx.seed + 7, timeout=T, count=False))
+                 num=60 if quick else 1000, depth=50, seed=ctx.seed + 7, timeout=T, count=False))
     return J
 
 
